@@ -128,11 +128,15 @@ Definition guards0 (b : base) (te : Z * ev) : list rule :=
    (an acquisition still in flight may complete; becomeLeader ignores it) *)
 Definition late_claim (b : base) (te : Z * ev) : list rule :=
   match snd te with
-  | EFlag i fl _ _ _ =>
+  | EFlag i fl cause _ _ =>
       let x := inst_of b i in
       when (zb fl && io_cancelled x) 2034 ++
       (* rule 2048: a new term starts only when the promotion callbacks of the earlier terms have been entered *)
-      when (zb fl && ic_haspromote (cfg_of b i) && negb (io_promotes x =? io_terms x)) 2048
+      when (zb fl && ic_haspromote (cfg_of b i) && negb (io_promotes x =? io_terms x)) 2048 ++
+      (* rule 2080: the heartbeat-failure path gives up the claim only after a refresh attempt of the running term has failed:
+         the latest attempt was not answered with success in time, or it is still in flight and the loop's time-out has passed *)
+      when (negb (zb fl) && io_flag x && (cause =? sHbFail) &&
+            (io_hb_ok x || ((io_hb_te x <? 0) && (fst te - io_hb_ta x <? gen_hb_update_timeout (ic_H (cfg_of b i)))))) 2080
   (* rule 2047: the demotion callback of a term is entered after its promotion callback *)
   | EDemote i _ => let x := inst_of b i in when (ic_haspromote (cfg_of b i) && (io_promotes x <? io_ended x)) 2047
   | _ => []
